@@ -59,14 +59,26 @@ func c10Catalogue() []c10Offence {
 		{"frame-inside-header-block", []uint32{eProtocol}, func(rng *rand.Rand, p *rt.Peer, next, open uint32) []byte {
 			blk := reqBlock(p, next, "inblock")
 			b := raw(wire.THeaders, wire.FEndStream, next, blk[:len(blk)/2])
-			switch rng.Intn(3) {
+			switch rng.Intn(6) {
 			case 0:
-				return append(b, rt.Ping(false, "inblock!")...)
+				b = append(b, rt.Ping(false, "inblock!")...)
 			case 1:
-				return append(b, raw(wire.TData, 0, max(open, next), []byte("x"))...)
+				b = append(b, raw(wire.TData, 0, max(open, next), []byte("x"))...)
+			case 2:
+				b = append(b, raw(0x42, 0, 0, []byte("ext"))...)
+			case 3:
+				b = append(b, rt.SettingsFrame()...)
+			case 4:
+				b = append(b, rt.WindowUpdate(0, 100)...)
 			default:
-				return append(b, raw(0x42, 0, 0, []byte("ext"))...)
+				b = append(b, rt.Priority(next+2, 0, false, 7)...)
 			}
+			if rng.Intn(2) == 0 {
+				// and the block is finished as if nothing had happened: an endpoint that let the intruder through now has a
+				// complete request in its hands
+				b = append(b, raw(wire.TContinuation, wire.FEndHeaders, next, blk[len(blk)/2:])...)
+			}
+			return b
 		}},
 		{"data-on-stream-0", []uint32{eProtocol}, func(rng *rand.Rand, p *rt.Peer, next, open uint32) []byte {
 			return raw(wire.TData, 0, 0, []byte("x"))
